@@ -94,6 +94,18 @@ func (e *Engine) noteAssumption(s string) { e.assumptions[s] = true }
 
 func (e *Engine) noteGlobal(g *ssa.Global, t string) {
 	if _, ok := e.globalsSeen[g]; !ok {
+		el := g.Type().(*types.Pointer).Elem()
+		if _, isIface := el.Underlying().(*types.Interface); isIface && strings.HasPrefix(g.Name(), "Err") && strings.HasSuffix(t, "!0") {
+			// sentinel errors: non-nil, pairwise distinct, never reassigned
+			e.noteAssumption("package-level Err* variables hold distinct non-nil error values and are never reassigned")
+			e.S.AddAxiom([]string{t}, fmt.Sprintf("(not (= %s (mk_iface 0 0)))", t))
+			for og, ot := range e.globalsSeen {
+				oel := og.Type().(*types.Pointer).Elem()
+				if _, ok := oel.Underlying().(*types.Interface); ok && strings.HasPrefix(og.Name(), "Err") && strings.HasSuffix(ot, "!0") {
+					e.S.AddAxiom([]string{t, ot}, fmt.Sprintf("(not (= %s %s))", t, ot))
+				}
+			}
+		}
 		e.globalsSeen[g] = t
 	}
 }
